@@ -52,3 +52,49 @@ Fixpoint lrun (ops : list vop) (s : lstate) : list (list N) * out (list N * N) :
     | None => ([], Rev FAILED_ASSERT_SIGNAL)
     end
   end.
+
+(* ---- Bytes / String operations (reference) *)
+Definition ldump (s : lstate) : list N := [N.of_nat (length (fst s)); snd s] ++ fst s.
+
+Definition lpush (x : N) (s : lstate) : lstate := let '(l1, c1) := lgrow s in (l1 ++ [x], c1).
+Fixpoint lpushes (l : list N) (s : lstate) : lstate :=
+  match l with [] => s | x :: r => lpushes r (lpush x s) end.
+
+Definition clstep (s : lstate) (o : cop) : option (lstate * list N) :=
+  let '(l, c) := s in
+  let n := N.of_nat (length l) in
+  match o with
+  | CV o => lstep s o
+  | CResize m x =>
+    if m <=? n then Some ((firstn (N.to_nat m) l, c), [])
+    else Some ((l ++ repeat x (N.to_nat m - length l), if c <? m then m else c), [])
+  | CAppend other =>
+    (* `other` is built by pushes from the empty Bytes; its len and capacity are observed *)
+    let k := N.of_nat (length other) in
+    let oc := snd (lpushes other lnew) in
+    if k =? 0 then Some (s, [k; oc])
+    else Some ((l ++ other, if c <? n + k then n + k else c), [k; oc])
+  | CSplitAt mid =>
+    if mid <=? n then Some (s, [mid; mid] ++ firstn (N.to_nat mid) l ++ [n - mid; n - mid] ++ skipn (N.to_nat mid) l)
+    else None
+  | CString => Some (s, [n; n; N.b2n (n =? 0)] ++ l)
+  end.
+
+Fixpoint clrun (ops : list cop) (s : lstate) : list N * out unit :=
+  match ops with
+  | [] => (ldump s, Ret tt)
+  | o :: rest =>
+    match clstep s o with
+    | Some (s', ob) => let '(obs, fin) := clrun rest s' in (ob ++ obs, fin)
+    | None => ([], Rev FAILED_ASSERT_SIGNAL)
+    end
+  end.
+
+(* size of an operation for the overflow bound of the refinement theorem *)
+Definition cweight (o : cop) : N :=
+  match o with
+  | CResize m _ => m + 1
+  | CAppend other => N.of_nat (length other) + 1
+  | _ => 1
+  end.
+Definition cweights (ops : list cop) : N := fold_right (fun o acc => cweight o + acc) 0 ops.
